@@ -80,6 +80,7 @@ func checkC06(c *Ctx, r *Report) {
 	percallRule(c, r, "C06-percall")
 	mirrorRule(c, r, "C06-mirror")
 	codeWidthRule(c, r, pr, "C06-codewidth")
+	lengthAgreeRule(c, r, "C06-length")
 	// ---- C06-consumed
 	r.Rule("C06-consumed", 1, "Write consumes all input")
 	if fn := c.Func(pkg, "(*Writer).Write"); fn != nil {
@@ -543,4 +544,127 @@ func globalWritten(c *Ctx, g *ssa.Global) bool {
 		})
 	}
 	return written
+}
+
+// lengthAgreeRule: the match length the encoder announces (the operand L of the length code
+// 255-THRESHOLD+L) is the quantity it then skips in the input (lastMatchLength), and that quantity is
+// limited to the bytes left in the lookahead before it is announced.
+func lengthAgreeRule(c *Ctx, r *Report, rule string) {
+	r.Rule(rule, 2, "the announced match length is the length consumed, clamped to the lookahead")
+	fn := c.Func("lzhuf", "(*Writer).encode")
+	if fn == nil {
+		r.Fail(rule, "anchor lzhuf.(*Writer).encode not found")
+		return
+	}
+	where := fnName(fn)
+	// storage identity of a length value: the access path of a load, or the SSA value itself
+	ident := func(v ssa.Value) string {
+		for {
+			cv, ok := v.(*ssa.Convert)
+			if !ok {
+				break
+			}
+			v = cv.X
+		}
+		if ld, ok := v.(*ssa.UnOp); ok && ld.Op == token.MUL {
+			return "mem:" + pathOf(ld.X)
+		}
+		return "val:" + v.Name()
+	}
+	// L in encodeChar(uint(255 - T + L)): the non-constant leaf of the sum
+	var announced ssa.Value
+	var at ssa.Instruction
+	for _, ci := range callsTo(fn, false, "lzhuf.Writer.encodeChar") {
+		unconv := func(v ssa.Value) ssa.Value {
+			for {
+				if cv, ok := v.(*ssa.Convert); ok {
+					v = cv.X
+					continue
+				}
+				return v
+			}
+		}
+		arg := unconv(ci.Common().Args[1])
+		var leaves []ssa.Value
+		var flat func(v ssa.Value)
+		flat = func(v ssa.Value) {
+			v = unconv(v)
+			if b, ok := v.(*ssa.BinOp); ok && (b.Op == token.ADD || b.Op == token.SUB) {
+				flat(b.X)
+				flat(b.Y)
+				return
+			}
+			if _, isC := constInt(v); !isC {
+				leaves = append(leaves, v)
+			}
+		}
+		flat(arg)
+		if b, ok := arg.(*ssa.BinOp); ok && len(leaves) == 1 && (b.Op == token.ADD || b.Op == token.SUB) {
+			announced, at = leaves[0], ci
+		}
+	}
+	var remembered ssa.Value
+	eachInstr(fn, func(_ *ssa.BasicBlock, _ int, in ssa.Instruction) {
+		if st, ok := in.(*ssa.Store); ok && strings.HasSuffix(pathOf(st.Addr), ".lastMatchLength") {
+			remembered = st.Val
+		}
+	})
+	// a local merged after the two branches: take the value that flows in from the announcing branch
+	if ph, ok := remembered.(*ssa.Phi); ok && at != nil {
+		var cands []ssa.Value
+		for i, pred := range ph.Block().Preds {
+			if pred == at.Block() || at.Block().Dominates(pred) {
+				cands = append(cands, ph.Edges[i])
+			}
+		}
+		if len(cands) == 1 {
+			remembered = cands[0]
+		}
+	}
+	o := r.Add(rule, where, "announced length = consumed length", c.pos(fn.Pos()))
+	switch {
+	case announced == nil || remembered == nil:
+		o.Bad("could not identify the length code operand or the store to lastMatchLength (unresolved)")
+	case ident(announced) != ident(remembered):
+		o.Bad("the length written into the stream comes from %s but the encoder then skips %s bytes: when the two differ (a final match clamped to the bytes left) the decoder is told a longer match than the data has - the stream runs past its declared size and fails its own check", pathOf(announced), pathOf(remembered))
+	default:
+		o.OK("both are %s", pathOf(announced))
+	}
+	// the clamp: a store of the lookahead count into that storage under `L > w.len`, before the announce
+	o = r.Add(rule, where, "length clamped to the lookahead", c.pos(fn.Pos()))
+	clamped := false
+	if announced != nil {
+		id := ident(announced)
+		eachInstr(fn, func(_ *ssa.BasicBlock, _ int, in ssa.Instruction) {
+			st, ok := in.(*ssa.Store)
+			if !ok || "mem:"+pathOf(st.Addr) != id && !strings.HasPrefix(id, "val:") {
+				return
+			}
+			if !strings.HasSuffix(pathOf(strip(st.Val)), ".len") && !strings.HasSuffix(pathOf(st.Val), ".len") {
+				return
+			}
+			for _, cd := range condsAt(st.Block()) {
+				if b, ok := cd.V.(*ssa.BinOp); ok && cd.Truth && (b.Op == token.GTR || b.Op == token.GEQ) && strings.HasSuffix(pathOf(b.Y), ".len") {
+					if at != nil && instrReaches(st, at) {
+						clamped = true
+					}
+				}
+			}
+		})
+		if strings.HasPrefix(id, "val:") {
+			// a local: phi of [original, w.len] under the comparison
+			if ph, ok := strip(announced).(*ssa.Phi); ok {
+				for _, e := range ph.Edges {
+					if strings.HasSuffix(pathOf(e), ".len") {
+						clamped = true
+					}
+				}
+			}
+		}
+	}
+	if clamped {
+		o.OK("limited to w.len before it is announced")
+	} else {
+		o.Bad("the announced match length is not limited to the bytes left in the lookahead")
+	}
 }
